@@ -150,6 +150,10 @@ def c05_cases(rnd, n):
         c = gen_case(rnd, dynamics='synchronous', kinds=['star', 'complete', 'random'])
         c['pv']['pInfect'] = 1.0
         c['pv']['pAux'] = rnd.choice([0.5, 1.0])
+        c['pv']['pSeed'] = rnd.choice([0.25, 0.5])
+        if c['model'] == 'SEIR':
+            c['pv']['pRemove'] = rnd.choice([0.5, 0.75])      # symptoms: both exposed and infected neighbours around
+            c['maxtime'] = 4.0
         out.append(c)
     return out
 
